@@ -25,6 +25,7 @@ open Jomini
 mutual
 inductive Ty where
   | bool | i64 | u64 | i32 | u32 | f64 | f32 | str | any | ign
+  | u16 | i16 | u8 | i8
   | opt (t : Ty) | seq (t : Ty) | map (t : Ty) | prop (t : Ty)
   | struct (fs : Fields)
   | enum (vs : List String)
@@ -262,6 +263,18 @@ def visitPrim (t : Ty) (p : Prim) : Res String :=
   | .u32 => match p.asInt with
     | some v => if inRange 0 ((2 ^ 32 : Nat) - 1) v then .ok ("u" ++ toString v) else .error .type
     | none => .error .type
+  | .u16 => match p.asInt with
+    | some v => if inRange 0 65535 v then .ok ("u" ++ toString v) else .error .type
+    | none => .error .type
+  | .u8 => match p.asInt with
+    | some v => if inRange 0 255 v then .ok ("u" ++ toString v) else .error .type
+    | none => .error .type
+  | .i16 => match p.asInt with
+    | some v => if inRange (-32768) 32767 v then .ok ("i" ++ toString v) else .error .type
+    | none => .error .type
+  | .i8 => match p.asInt with
+    | some v => if inRange (-128) 127 v then .ok ("i" ++ toString v) else .error .type
+    | none => .error .type
   | .f64 => match p with
     | .f64 b => .ok ("f" ++ toString b)
     | .f32 b => .ok ("f" ++ toString (f32ToF64 b))
@@ -491,7 +504,10 @@ def deser (c : Cfg) (t : Tok) : Event :=
   | .trunc => .err .other | .stray => .err .other
 
 /-- the typed `deserialize_*` hints (de.rs:218-335 / 778-887): the matching token kind is visited
-directly, everything else goes through `deser`. -/
+directly, everything else goes through `deser`.  `deserialize_u16` (de.rs:230 / 789) visits a token
+id as `u16` without consulting the resolver (on-demand: `self.token.is_id()`, which excludes the 13
+lexeme ids; the rgb marker never arrives here as `.id`, see `normTok`); `deserialize_i16/i8/u8`
+have no hint. -/
 def hinted (c : Cfg) (ty : Ty) (t : Tok) : Event :=
   match ty, t with
   | .bool, .bool b => .prim (.bool b)
@@ -503,6 +519,7 @@ def hinted (c : Cfg) (ty : Ty) (t : Tok) : Event :=
   | .f64, .f64 raw => .prim (.f64 (visitF64 raw))
   | .str, .quoted b => .prim (.str (decode1252 b))
   | .str, .unquoted b => .prim (.str (decode1252 b))
+  | .u16, .id n => .prim (.u16 n)
   | _, _ => deser c t
 
 /-- a leaf-typed visitor (bool, numbers, String) handed an event. -/
